@@ -194,8 +194,8 @@ def patterns(tier):
     red = prop_specs("s")[:6] + prop_specs("n")[:2] + [prop_specs("n")[8]] + child_specs(1)[:6] + [s for s in seq_specs(False) if _small(s)]
     for cls in (CLASSES if full else CLASSES[:3]):
         for f1, f2 in itertools.product(red, repeat=2):
-            if f1[0] == f2[0]:
-                continue
+            if f1[0] == f2[0] and cls not in ("*", ("PA",), ("PB", "PA")):
+                continue   # one field named twice (both specs must hold, both captures are made): for three class specs
             yield T(cls, f1, f2)
         for f1, f2 in var_pairs():
             yield T(cls, f1, f2)
